@@ -61,7 +61,7 @@ ROWS = {
   text='Lean theorems for all payloads, session ids, sequence numbers and passwords: the sent datagram is RMCP v6 / '
        'class IPMI / auth type / LE sequence and id / 16-byte code iff type != none / length byte / payload; the code '
        'is the padded password or MD5(pw,id,payload,seq,pw) over the values in that same datagram; unpack returns '
-       'exactly the payload and rejects wrong version, class and length (unless disabled); ASF ping/pong format. '
+       'exactly the payload and rejects wrong version, class and length (unless disabled); ASF: the ping equals the figure, and every well-formed presence pong (Spec.Lan.Pong, from ASF 2.0 3.2.4.3 / IPMI v2.0 table 13-6; all entity / interaction bytes) is accepted and unwrapped to its fields (wellformed_pong_accepted; as shipped pong_interactions_asShipped_counterexample; the variant of check_data is probed on the code); 27 theorems. '
        'Struct formats, constants and the auth dispatch are regenerated from rmcp.py on every run.',
   note='translator harness/translate/rmcp.py; digest function is a parameter of the theorems, hashlib.md5 is trusted and '
        'cross-checked against a Lean RFC 1321 implementation; CPython struct/array semantics modelled',
